@@ -63,6 +63,26 @@ def load_fonts():
 
     for bname, bdata in sorted(bitmapfont.family().items()):
         _FONTS["tiny:" + bname] = (bdata, -1)
+    # CID-keyed CFF fonts with their FDSelect stored in the other format (0 <-> 3): the dump names the
+    # format, the import has to keep it even when the other one would be smaller
+    for key in sorted(k for k in _FONTS if k.startswith("ttx:") or k.startswith("bin:")):
+        data, idx = _FONTS[key]
+        if len(data) > 60000 or b"CFF " not in data[:1024]:
+            continue
+        try:
+            f = TTFont(io.BytesIO(data), fontNumber=idx)
+            td = f["CFF "].cff.topDictIndex[0]
+            sel = getattr(td, "FDSelect", None)
+            if sel is None or len(f.getGlyphOrder()) < 8:
+                continue
+            sel.format = 0 if sel.format != 0 else 3
+            b = io.BytesIO()
+            f.save(b)
+            g = TTFont(io.BytesIO(b.getvalue()))
+            if g["CFF "].cff.topDictIndex[0].FDSelect.format == sel.format:
+                _FONTS["derived:%s-fdselect%d" % (key.split("/")[-1], sel.format)] = (b.getvalue(), -1)
+        except Exception:
+            continue
     # hostile glyph names and name strings
     spec = {"kind": "ttf", "shapes": "mixed", "glyphs": HOSTILE_GLYPHS, "cmap": {0x41 + i: g for i, g in enumerate(HOSTILE_GLYPHS)},
             "fea": "feature liga { sub \\a.b-c \\Aacute_ by \\_1; } liga;"}
